@@ -9,7 +9,8 @@ EXPLANATION = ("C13: the device forwards messages untouched (no message mutator 
                "loops agree on the hop-loop facts and the raw reply path (xreq/xsurveyor) moves words only under the length "
                "guard with a checked append; every NNG_OPT_MAXTTL setter accepts exactly 1..NNI_MAX_MAX_TTL and the header "
                "buffer holds NNI_MAX_MAX_TTL+1 words; header writes are dominated by the capacity test; raw senders pop one "
-               "routing word after the length test.")
+               "routing word after the length test."
+               " Also: device_cb frees the path message only under its state test; a reflector device runs one forwarder (R6); the hop limit is the socket's current value.")
 
 
 def on_cycle(fn, pos):
